@@ -188,8 +188,13 @@ def _sys_buffet_case(seq, breaks, epl):
             "cache": None, "perm": None, "rename": None}
 
 
+# coordinate / position / stamp values deliberately straddle the 1-, 2- and 3-digit boundaries: the models
+# read their inputs from text files
+POOL = [0, 1, 2, 3, 5, 8, 9, 10, 11, 12, 19, 20, 25, 99, 100, 101, 120]
+
+
 def _gen_stamps(rng, n, count, p_inner):
-    stamp, out = [0] * n, []
+    stamp, out = [rng.choice([0, 0, 0, 7, 97]) for _ in range(n)], []
     for t in range(count):
         if t:
             lvl = n - 1
@@ -207,9 +212,11 @@ def _gen_binding_rows(rng, n, count, epl, nlines, shape, mode, ncoord, diff_rw=F
     stamps = _gen_stamps(rng, n, count, rng.choice([0.5, 0.75, 0.9]))
     cmap = {}
     reads, writes = [], []
+    alphabet = rng.sample(POOL, ncoord) if rng.random() < 0.5 else list(range(ncoord))
+    lo = max(0, shape - epl * nlines)
     for st in stamps:
-        coords = [cmap.setdefault((lvl, st[:lvl + 1]), rng.randrange(ncoord)) for lvl in range(n - 1)]
-        pos = rng.randrange(max(1, min(shape, epl * nlines)))
+        coords = [cmap.setdefault((lvl, st[:lvl + 1]), rng.choice(alphabet)) for lvl in range(n - 1)]
+        pos = rng.randrange(lo, max(lo + 1, shape))
         if mode == "r":
             kind = "r"
         elif mode == "w":
@@ -217,11 +224,14 @@ def _gen_binding_rows(rng, n, count, epl, nlines, shape, mode, ncoord, diff_rw=F
         else:
             kind = rng.choice(["r", "r", "w", "rw", "rw"])
         if kind in ("r", "rw"):
-            reads.append(list(st) + coords + [pos, pos])
+            rpos = pos
+            if staging and mode == "rw" and rng.random() < staging / 2:
+                rpos = shape + rng.randrange(epl * 2)       # populate's shift phase reads the staging area back
+            reads.append(list(st) + coords + [rpos, rpos])
         if kind in ("w", "rw"):
             wpos = pos
             if kind == "rw" and diff_rw and rng.random() < 0.4:
-                wpos = rng.randrange(max(1, min(shape, epl * nlines)))
+                wpos = rng.randrange(lo, max(lo + 1, shape))
             if staging and rng.random() < staging:
                 wpos = shape + rng.randrange(epl * 2)
             writes.append(list(st) + coords + [wpos, wpos])
@@ -247,7 +257,7 @@ def _rand_single(rng):
     epl, line_sz = _pick_line(rng, bits)
     nlines = rng.randint(1, 5)
     mode = rng.choice(["r", "r", "rw", "rw", "w"])
-    shape = epl * nlines + rng.choice([0, 0, 1]) * rng.randrange(epl)
+    shape = rng.choice([0, 0, 0, 8, 96, 999]) + epl * nlines + rng.choice([0, 0, 1]) * rng.randrange(epl)
     count = rng.choice([rng.randint(0, 12), rng.randint(5, 40), rng.randint(20, 120)])
     flavour = rng.choice(["exact", "exact", "exact", "staging", "shift"]) if mode != "r" else "exact"
     reads, writes = _gen_binding_rows(rng, n, count, epl, nlines, shape, mode, rng.randint(1, 3),
@@ -291,7 +301,7 @@ def _rand_multi(rng):
         used.add((t, j, ty))
         nlines = rng.randint(1, 4)
         mode = rng.choice(["r", "r", "rw", "w"])
-        shape = epl * nlines
+        shape = rng.choice([0, 0, 8, 96]) + epl * nlines
         reads, writes = _gen_binding_rows(rng, j + 1, rng.randint(1, 30), epl, nlines, shape, mode, rng.randint(1, 3),
                                           staging=rng.choice([0, 0.3]) if mode != "r" else 0.0)
         bindings.append({"tensor": t, "rank": order[j], "type": ty, "bits": bits, "n": j + 1,
@@ -317,10 +327,10 @@ def _rand_multi(rng):
             "cache": {"caps": [0, 1, 2, 4, None]}, "perm": None, "rename": None}
 
 
-def _inc_points(rng, n, count, ext):
+def _inc_points(rng, n, count, vals):
     pts = set()
     for _ in range(count):
-        pts.add(tuple(rng.randrange(ext) for _ in range(n)))
+        pts.add(tuple(rng.choice(vals) for _ in range(n)))
     return sorted(pts)
 
 
@@ -329,12 +339,13 @@ def _rand_filter(rng):
     extra = rng.choice([0, 0, 1, 2]) if n < 3 else 0
     extra = min(extra, 3 - n)
     ext = rng.choice([2, 3, 4, 6])
+    ext = list(range(ext)) if rng.random() < 0.4 else rng.sample(POOL, ext)
     in_pts = _inc_points(rng, n, rng.randint(0, 14), ext)
     if rng.random() < 0.5:
         fil_pts = _inc_points(rng, n + extra, rng.randint(0, 14), ext)
     else:   # mostly a sub-/superset of the input's points
         base = [p for p in in_pts if rng.random() < 0.6] + _inc_points(rng, n, rng.randint(0, 3), ext)
-        fil_pts = sorted({p + tuple(rng.randrange(ext) for _ in range(extra)) for p in base for _ in range(1 + extra)})
+        fil_pts = sorted({p + tuple(rng.choice(ext) for _ in range(extra)) for p in base for _ in range(1 + extra)})
     st_in = _gen_stamps(rng, n, len(in_pts), 0.6)
     st_fil = _gen_stamps(rng, n + extra, len(fil_pts), 0.6)
     in_rows = [list(s) + list(p) + [rng.randrange(9)] for s, p in zip(st_in, in_pts)]
@@ -676,10 +687,12 @@ def _run_model_case(case, mon, tmp, files=None, tagx=""):
     multi, staging, shift, same_rank, foreign = _features(case, facts)
     tag = tagx + (":multi-binding" if multi else "")
 
+    ftag = ":bindings-with-different-extents" if foreign else ""
+
     def keyfn(which, kind, failure, extra=""):
         """violation class = operation + clause + failure kind (+ input class)"""
         if kind == "writebacks" and foreign:
-            return f"{which}:writebacks:bindings-with-different-extents{tag}"
+            return f"{which}:writebacks{ftag}{tag}"
         return f"{which}:{kind}:{failure}{tag}{extra}"
     mon.count("staging_writes_seen", sum(1 for f in facts for a in f["acc"] if a[4] and a[1]))
     reuse = any(len({a[2] for a in f["acc"]}) < len(f["acc"]) for f in facts)
@@ -709,7 +722,7 @@ def _run_model_case(case, mon, tmp, files=None, tagx=""):
                 if multi:
                     mon.count("multi_binding_calls")
                 if not ok:
-                    mon.violation(f"buffetTraffic:raised:{type(res).__name__}{tag}",
+                    mon.violation(f"buffetTraffic:raised:{type(res).__name__}{ftag}{tag}",
                                   f"buffetTraffic raised {type(res).__name__}: {res} (evict-on {evict}, capacity {cap})")
                     continue
                 got, overflows = res
@@ -756,7 +769,7 @@ def _run_model_case(case, mon, tmp, files=None, tagx=""):
                 mon.count("multi_binding_calls")
             if not ok:
                 cls = ":rw-rows-of-different-lines-share-a-stamp" if shift else ""
-                mon.violation(f"cacheTraffic:raised:{type(res).__name__}{cls}{tag}",
+                mon.violation(f"cacheTraffic:raised:{type(res).__name__}{cls}{ftag}{tag}",
                               f"cacheTraffic raised {type(res).__name__}: {res} (capacity {cap_lines} lines)")
                 prev = None
                 continue
@@ -1028,6 +1041,9 @@ def _run_kernel(case, mon, tmp):
            binding("B", "N", "payload", ("N", "populate_1"))], [["root", "M", "K"], ["root", "root", "M"]])
     model([binding("A", "K", "coord", ("K", "intersect_0")), binding("A", "K", "payload", ("K", "intersect_0")),
            binding("B", "K", "payload", ("K", "intersect_1"))], [["M", "M", "root"]])
+    # Z's leaf coordinates are looked at (read-only), its payloads updated
+    model([binding("Z", "N", "coord", ("N", "populate_read_0")),
+           binding("Z", "N", "payload", ("N", "populate_read_0"), ("N", "populate_write_0"))], [["M", "K"]])
     # filters: follower filtered by leader; intersection filtered by the innermost loop
     _check_filter(mon, tmp, parsed[("K", "intersect_1")][0], parsed[("K", "intersect_0")][0], ":real-trace")
     _check_filter(mon, tmp, parsed[("K", "intersect_0")][0], parsed[("N", "iter")][0], ":real-trace")
